@@ -1,5 +1,7 @@
 """C12 - runtime tracebacks and compile warnings map to template lines.
 
+regen    : group TbCfg (tools/regen_tbcfg.py): does the per-file cache of RichTraceback._init keep the template
+           source?  -> Generated/TbCfg.lean, named obligation `mods_cache_keeps_source`.
 corr (a) : Lean printer model (Printer/Model.lean, driver op `printer run`) vs the real `PythonPrinter`, driven
            directly on an io.StringIO with random emission sequences: source_map, lineno, number of newlines
            in the stream, order of the physical lines, and the dense map computed by the *real*
@@ -8,16 +10,29 @@ corr (b) : instrumented codegen: the real `PythonPrinter` is wrapped while `Temp
            recorded event sequence is fed to the model, the model's map is compared with the `line_map` JSON
            of the real module; owners are derived from the node / callable being visited (independent of
            the `start_source` calls) and every generated line whose mark differs from its owner is
-           classified by emitting call site (the list of such sites is pinned: KNOWN_UNMARKED).
-corr (c) : `RichTraceback._init`, `.traceback`, `.lineno` decision logic (`printer tb`, `printer pick`) and the
-           warnings helpers (`printer warn`) vs the real functions.
+           classified by emitting call site (the list of such sites is pinned: KNOWN_UNMARKED); the Lean
+           `wellMarked` walk is compared with that classification.
+corr (c) : decision logic vs the real functions: one frame of `RichTraceback._init` incl. the line text picked
+           from a source with exotic line-boundary characters (`printer tb`), the record that gives `.lineno`
+           (`printer pick`), the template source attached to each record when several templates occur
+           (`printer srcs`), the warnings hooks under the filter actions (`printer warn`), and which hook is
+           installed at each regenerate / load step of `Template._compile_from_file` in its four situations
+           (`printer plan`; probed behaviourally with probe warnings).
 corr (d) : the Lean emission skeleton of codegen's visit*/write_* methods (Printer/Codegen.lean, `printer emitall`):
            the item list of a real compilation is rebuilt from the visited nodes and `emitAll items` is compared
            with the recorded event sequence, event by event.
-oracle   : (no Lean) generated template sets with ONE raising expression / statement planted at every
-           candidate position, one at a time, x four construction paths; RichTraceback records,
-           text_error_template, html_error_template, format_exceptions=True; warning-triggering literals
-           x paths x filter actions.
+oracle   : (no Lean)
+           traceback        - hand-written witnesses (one per emission site, alternating templates, exotic line
+                              boundaries) and generated template sets with ONE raising expression / statement
+                              planted at every candidate position, one at a time, x four construction paths;
+                              RichTraceback records (file, line, source text, attached source), .lineno/.source,
+                              text_error_template, html_error_template, format_exceptions=True, plain frames;
+           warnings         - warning-triggering literals x positions x paths x filter actions;
+           module-file reuse- module-directory templates constructed a second time in-process and in fresh
+                              subprocesses (with / without byte code);
+           foreign module   - a recent module file at the module path that belongs to another template file or
+                              carries another magic number (second regeneration path);
+           same URI in two lookups (module-id collision); RichTraceback built inside a template.
 """
 from __future__ import annotations
 
@@ -39,22 +54,33 @@ RULE = ("corr(a): random emission sequences over {start_source, writeline (incl.
         "indent/dedent keywords), write_blanks, write_indented_block (\\n, \\r\\n, with/without starting_lineno), "
         "metadata struct, close}, 1..40 events, every physical line carries a unique token; non-trivial = "
         "contains a block, a multi-line writeline or a repeated start_source. "
-        "corr(b)/oracle: template sets built from a grammar (text, ${} incl. multi-line, % if/for/while with "
-        "loop context, <% %>/<%! %> blocks with code on several lines, top-level and nested <%def>, named and "
-        "anonymous <%block>, <%call> with body and args, <%include>, <%namespace file>, <%inherit>, <%text>, "
-        "<%page>, filters, cached defs, strict_undefined) with one fault slot active per case; every slot of "
-        "every generated set is visited; x {string, file, lookup, module-directory}; warnings: literal "
-        "{\"\\d\", 1 is 1, warnings.warn} x position x path x {always, once, error}; "
-        "distinct = distinct (template set text, slot, path)")
+        "corr(b)/(d)/oracle: hand-written witness sets plus template sets built from a grammar (text incl. form feed, "
+        "VT, FS/GS/RS, NEL, U+2028/9, lone CR, CRLF; ${} incl. multi-line; % if/elif/for/while with loop "
+        "context; <% %>/<%! %> blocks with code on several lines; top-level and nested <%def> with filter / "
+        "buffered / cached / raising default; named and anonymous <%block>; <%call> and <%self:def> with body and "
+        "args; <%include> with args; <%namespace file>; <%inherit>; <%text filter>; <%page>; strict_undefined) with "
+        "one fault slot active per case; every slot of every generated set is visited; x {string, file, lookup, "
+        "module-directory}; a set whose benign form does not render is discarded (counted). "
+        "corr(c): random (registered?, lineno, full map, template lines), record sequences over {A,B,C,plain}, "
+        "warning sequences over {phase} x {file} x {text} x {always, once, error, ignore}, the four "
+        "(module file up to date?, accepted?) situations. "
+        "warnings oracle: literal {\"\\d\", 1 is 1, warnings.warn} x 21 positions (incl. python in attributes) x "
+        "path x {always, once, error}; second construction / subprocess / foreign module file for the "
+        "module-directory path. distinct = distinct (template set text, slot, path)")
 ASSUMPTIONS = [
     "owner of a generated line: exact template line inside <% %>/<%! %>; otherwise the line on which the "
     "construct the line was emitted for begins (stub / inline def header / preamble / epilogue of a def or "
     "block: the tag's line; of render_body: the <%page> tag's line, else line 1)",
     "generated lines that cannot raise and are no call sites (try:, finally:, return '', pass, context.get, "
-    "_push_frame/_pop_frame, writer/buffer bookkeeping, blank lines, def headers without defaults) are not "
-    "observable in tracebacks or warnings; their mapping is reported in the evidence but is no violation",
+    "_push_frame/_pop_frame, writer/buffer bookkeeping, nextcaller save/restore, literal text writes, blank "
+    "lines, def headers without defaults) are not observable in tracebacks or warnings; their mapping is "
+    "reported in the evidence but is no violation",
     "under the filter action 'error' a warning becomes an exception where it first passes the filters; C12 "
     "requires that nothing is shown in addition and that the exception names the template and its line",
+    "a compile warning is raised when CPython compiles: a reused module file whose byte code is cached may "
+    "show none; when it is compiled again the warning must be shown once against the template",
+    "an exception raised while <%inherit> is resolved is not passed through format_exceptions by mako; that "
+    "view is not required for it",
     "traceback.extract_tb, linecache and the warnings filters themselves are outside the model",
 ]
 REGEN = ["TbCfg"]     # RichTraceback._init: does the per-file cache keep the template source?
@@ -62,6 +88,9 @@ TRUSTED_EXTRA = [
     "C12: indentation written by PythonPrinter is not modelled (no newline in it); the text of generated lines "
     "is opaque to the model; the classification 'cannot raise' of generated boiler-plate lines is a fixed list "
     "in harness/props/C12.py (INERT)",
+    "C12: tools/regen_tbcfg.py (reads the tuple stored in / unpacked from mods[filename] in RichTraceback._init)",
+    "C12: the ground truth of the oracle (expected frame chains of the generated template sets) is computed by the "
+    "generator in harness/props/C12.py; a mismatch in the number of template frames is reported as a broken tie",
 ]
 
 # --------------------------------------------------------------------------------------------------
